@@ -20,6 +20,7 @@ from pycel.lib.function_helpers import (
 
 _SIZE_MASK = {2: 512, 8: 0x20000000, 16: 0x8000000000}
 _BASE_TO_FUNC = {2: bin, 8: oct, 16: hex}
+_BASE_DIGITS = '0123456789ABCDEF'
 
 
 def _base2dec(value, base):
@@ -38,6 +39,9 @@ def _base2dec(value, base):
             value = str(int(value))
 
     if isinstance(value, str) and len(value) <= 10:
+        if not set(value.upper()) <= set(_BASE_DIGITS[:base]):
+            # int() also accepts whitespace, signs, '_' and 0x/0o/0b prefixes
+            return NUM_ERROR
         try:
             value, mask = int(value, base), _SIZE_MASK[base]
             if value >= 0:
